@@ -222,6 +222,8 @@ func (o OpSpec) Proto() *spb.AFTOperation {
 				e.EncapHeader = []*aftpb.Afts_NextHop_EncapHeaderKey{hdr(1, 4), hdr(2, 99)}
 			case 5:
 				e.PushedMplsLabelStack = []*aftpb.Afts_NextHop_PushedMplsLabelStackUnion{lbl(41), badLbl, lbl(42)}
+			case 6: // a string leaf that has no schema pattern (the interface name) carries bytes that are not UTF-8
+				e.InterfaceRef = &aftpb.Afts_NextHop_InterfaceRef{Interface: &ywrapper.StringValue{Value: "eth\xff0"}}
 			}
 			k.NextHop = e
 		}
